@@ -51,6 +51,14 @@ inductive Reach : Ty → Ty → Bool → Path → Atom → Ty → Prop where
       Reach t e' false s x a' → Reach (.tuple ts g) (.array e' r') oc (PE.nat .index i :: s) x a'
   | idxTT {ts g ts' g' i ext t' oc s x a'} : ts.getLast? = some ext → ts.length ≤ i → ts'[i]? = some t' →
       Reach ext t' false s x a' → Reach (.tuple ts g) (.tuple ts' g') oc (PE.nat .index i :: s) x a'
+  -- Callable against Callable: the parameter tuples are described under the SAME path (absent actual parameters = the default Tuple);
+  -- the return types below `return`, the block types below `block`
+  | callP {ep rt bl ps' rt' bl' oc s x a'} : Reach ep (ps'.getD (.tuple [] (some Rng.pos))) false s x a' →
+      Reach (.callable (some ep) rt bl) (.callable ps' rt' bl') oc s x a'
+  | callRet {ps er bl ps' rt' bl' oc} :
+      Reach (.callable ps (some er) bl) (.callable ps' rt' bl') oc [⟨.ret, ""⟩] (.ty er) (rt'.getD .any)
+  | callBlk {ps rt eb ps' rt' ab oc} :
+      Reach (.callable ps rt (some eb)) (.callable ps' rt' (some ab)) oc [⟨.block, ""⟩] (.ty eb) ab
 
 /-- kind and key of a mismatch: what `mergeMismatch`, `withPath` and `chopPath` never change -/
 def Mismatch.kk : Mismatch → Cls × String
@@ -420,6 +428,53 @@ theorem variantTail_just {e o a : Ty} {oc : Bool} {p : Path} {v : VRes} {r : Lis
         simp only [Res.ok.injEq] at h; subst h; exact hds
 
 
+theorem Res.orElse_eq_ok {a b : Res} {r : List Mismatch} (h : Res.orElse a b = .ok r) :
+    (a = .ok r ∧ r ≠ []) ∨ (a = .ok [] ∧ b = .ok r) := by
+  cases a with
+  | fault k => simp [Res.orElse] at h
+  | ok x =>
+    cases x with
+    | nil => exact .inr ⟨rfl, by simpa [Res.orElse] using h⟩
+    | cons d ds => simp only [Res.orElse, Res.ok.injEq] at h; subst h; exact .inl ⟨rfl, by simp⟩
+
+/-- what describeCallableType reports after the parameters is justified -/
+theorem callTail_just {cfg sfh} {ps rt bl ps' rt' bl' : Option Ty} {oc : Bool} {p : Path} {r : List Mismatch}
+    (h : callTail cfg sfh rt bl rt' bl' p = .ok r) : ∀ m ∈ r, Just (.callable ps rt bl) (.callable ps' rt' bl') oc p m := by
+  have hblock : ∀ r, callBlock cfg sfh bl bl' p = .ok r → ∀ m ∈ r, Just (.callable ps rt bl) (.callable ps' rt' bl') oc p m := by
+    intro r h
+    unfold callBlock at h
+    split at h
+    · simp only [Res.ok.injEq] at h; subst h; intro m hm; cases hm
+    · split at h
+      · simp only [Res.ok.injEq] at h; subst h; intro m hm; cases hm
+      · split at h
+        · simp only [Res.ok.injEq] at h; subst h
+          intro m hm; simp only [List.mem_singleton] at hm; subst hm
+          exact just_leaf rfl (by simp [Mismatch.kk, Mismatch.cls])
+        · simp only [Res.ok.injEq] at h; subst h
+          intro m hm; simp only [List.mem_singleton] at hm; subst hm
+          exact ⟨_, _, _, rfl, .callBlk, by simp [Local, Mismatch.kk, Mismatch.cls]⟩
+  unfold callTail at h
+  split at h
+  · split at h
+    · exact hblock r h
+    · simp only [Res.ok.injEq] at h; subst h
+      intro m hm; simp only [List.mem_singleton] at hm; subst hm
+      exact ⟨_, _, _, rfl, .callRet, by simp [Local, Mismatch.kk, Mismatch.cls]⟩
+  · exact hblock r h
+
+/-- the Callable arm: parameter errors (justified by the induction hypothesis) or else the tail -/
+theorem call_just {cfg sfh} {ep : Ty} {rt bl ps' rt' bl' : Option Ty} {oc : Bool} {p : Path} {r : List Mismatch}
+    (ih : ∀ r, internalDescribe cfg sfh ep ep (ps'.getD (.tuple [] (some Rng.pos))) p = .ok r →
+      ∀ m ∈ r, Just ep (ps'.getD (.tuple [] (some Rng.pos))) (isOptional ep) p m)
+    (h : Res.orElse (internalDescribe cfg sfh ep ep (ps'.getD (.tuple [] (some Rng.pos))) p) (callTail cfg sfh rt bl rt' bl' p) = .ok r) :
+    ∀ m ∈ r, Just (.callable (some ep) rt bl) (.callable ps' rt' bl') oc p m := by
+  rcases Res.orElse_eq_ok h with ⟨h1, _⟩ | ⟨_, h2⟩
+  · intro m hm
+    obtain ⟨s, x, a', hp, hreach, hloc⟩ := ih r h1 m hm
+    exact ⟨s, x, a', hp, .callP hreach.oc_irrelevant, hloc⟩
+  · exact callTail_just h2
+
 theorem itemJ_struct (oc : Bool) (p : Path) (ms ms' : List Member) :
     ∀ it ∈ structItems p ms ms', ItemJ (.struct ms) (.struct ms') oc p it := by
   intro it hit
@@ -515,6 +570,9 @@ theorem describe_reach :
       | (exact variantTail_just (by simp [members]; rfl) (fun ds hds m hm => by
           have := ‹M3 cfg sfh _ _ _ _ _› ds hds m hm
           simpa using this) hr m hm)
+      | exact callTail_just hr m hm
+      | (exact call_just (ps' := some _) ‹_› hr m hm)
+      | (exact call_just (ps' := none) ‹_› hr m hm)
       | (exact just_of_items (itemJ_struct _ _ _ _) ‹_› hr m hm)
       | (exact just_of_items (itemJ_hash _ _ _ _ _ _) ‹_› hr m hm)
       | (exact just_of_items (itemJ_arrTup _ _ _ _ _ _) ‹_› hr m hm)
